@@ -23,6 +23,7 @@ REQUIRE = {'strings_checked': 2000, 'detected_DFXPReader': 5, 'detected_MicroDVD
 ORDER = ['DFXPReader', 'MicroDVDReader', 'WebVTTReader', 'SAMIReader', 'SRTReader', 'SCCReader']
 TOKENS = ['1', '42', 'a', '\n', '\r\n', '{', '}', '{1}{2}', '-->', 'WEBVTT', '<sami', '</tt>',
           'Scenarist_SCC V1.0', ' ', ':']
+ODD = ['\ufeff', '\t', '\x0c', '\x0b', '\u2028', '\u2029', '\x85', '\x1c', '\x00', '\u00a0', '\u3000', '\r']
 
 DOCS = {
     'srt': '1\n00:00:01,000 --> 00:00:02,500\nHello there\nsecond line\n\n2\n00:00:03,000 --> 00:00:04,000\nBye\n',
@@ -73,7 +74,11 @@ def gen_set(rng, tag, scc=False):
                 nodes.append(['t', s])
         else:
             while True:
-                nodes, lines = capsets.text_nodes(rng, f'{tag}.{i}', exclude='|', p_meta=0.3)
+                nodes, lines = capsets.text_nodes(rng, f'{tag}.{i}', exclude='|', p_meta=0.3,
+                                                  empty_lines=rng.choice([0.0, 0.0, 0.4]))
+                if rng.random() < 0.15:
+                    # a row that is nothing but digits (looks like an SRT counter)
+                    nodes += [['b'], ['t', rng.choice(['7', '12', '2024'])]]
                 if all(_marker_free(x) for x in lines):
                     break
         caps.append({'start': t, 'end': t + dur, 'nodes': nodes, 'style': None, 'layout': None})
@@ -107,6 +112,21 @@ def cases(ctx):
         n = rng.randrange(4, 12)
         toks = [rng.choice(TOKENS + ['1', '\n', '\n', '7', 'x', '00:00:01,000 --> 00:00:02,000']) for _i in range(n)]
         yield {'kind': 'string', 's': ''.join(toks)}
+    # strings made of characters that line splitting / stripping treat specially (BOM, form feed, separators)
+    import itertools as _it
+    for n in (1, 2, 3):
+        for combo in _it.product(ODD, repeat=n):
+            if n == 3 and (sum(map(ord, ''.join(combo))) % 7):
+                continue
+            if ctx.mine(idx):
+                yield {'kind': 'string', 's': ''.join(combo)}
+            idx += 1
+    for o in ODD:
+        for t in TOKENS:
+            for s in (o + t, t + o, o + t + o, t + o + t):
+                if ctx.mine(idx):
+                    yield {'kind': 'string', 's': s}
+                idx += 1
     for n in (2040, 2047, 2048, 2049, 4096, 10000, 70000):
         for marker, pad in (('</tt>', 'x'), ('WEBVTT', ' '), ('<sami', '\n'), ('</TT>', 'y ')):
             if ctx.mine(idx):
